@@ -8,8 +8,10 @@ for bit incl. both meshes).  Independent predicate, on the implementation's outp
 are the user's parameters or the extremes of the data of the most recent successful fit; transform is
 repeatable and leaves attributes and inputs untouched; fit_transform(X) equals fit(X).transform(X) on
 a copy and equals what a FRESH estimator with the user's parameters returns (forgets the past);
-transform after a history equals transform of a fresh estimator fitted only on the last fitted data;
-the imager maps a collection element by element, in order."""
+transform after a history equals transform of a fresh estimator fitted only on the last fitted data
+(both transformers); the imager maps a collection element by element, in order.  The imager histories run
+with default and with non-default weight / kernel arguments (the images themselves are quantified away in
+the Coq model, so the tie is unaffected); a fit that raises leaves the estimator as it was."""
 import math
 from fractions import Fraction
 
@@ -30,11 +32,20 @@ RULE = ("seeded histories of 3-8 fit / transform / fit_transform calls (landscap
         "input (missing degree, empty diagram); imager: constructor ranges / pixel sizes incl. inexact quotients, "
         "skew on/off, single diagram or list, transform with n_jobs in {1, 2} on 3-6 diagrams of pairwise different sizes, "
         "collections in which the same ndarray object occurs at two or more positions, and (class imager-degenerate) later fits on collections with zero extent on an "
-        "axis: all births equal / all persistences equal / a single point / one-point diagrams; a case is non-trivial when it contains >= 2 successful fits "
+        "axis: all births equal / all persistences equal / a single point / one-point diagrams; "
+        "classes *-kw (about 55% of the imager cases): non-default weight / kernel arguments - isotropic Gaussian with "
+        "variance != 1 given as float, int, 2x2 list or 2x2 ndarray, diagonal and full covariance matrices (general code "
+        "path, |rho| on both sides of 0.925), the uniform kernel, persistence weight with exponent != 1, linear ramp (all or a subset of the "
+        "optional arguments of ramp / uniform kernel given); kernel / weight by name or as the callable; every reference estimator gets its own copies of these arguments; "
+        "about 15% of the imager cases contain one fit / fit_transform on a collection with an empty diagram (raises "
+        "half-way, caught; must leave the estimator as the last successful fit made it) followed by clean calls; "
+        "every imager transform is also compared with a new imager (user's arguments) fitted on the last fitted data only; "
+        "a case is non-trivial when it contains >= 2 successful fits "
         "(fit or fit_transform) on different data and, for the landscaper, at least one grid end is not user-fixed; "
         "class multi-*: two or three live estimators in one process with interleaved calls (all fitted on fold A, "
         "then all on fold B; user-fixed ends equal to values another estimator learns), each judged on its own sub-history "
-        "and required to be untouched by calls on the others; distinct = distinct JSON input")
+        "and required to be untouched by calls on the others; multi-imager-sharedkw: the live imagers are built from the "
+        "SAME weight_params / kernel_params dict objects; distinct = distinct JSON input")
 TRUSTED_BASE = [
     "Coq 8.16.1 kernel, vm_compute (no native_compute)",
     "PrimFloat primitives and their stdlib specification axioms (imager correspondence only; the theorems are closed)",
@@ -47,6 +58,9 @@ ASSUMPTIONS = [
     "values are the subject of C08 / C04.  Here outputs are compared relationally (exact array equality between runs)",
     "infinite deaths and NaN are outside the generated inputs; attribute assignment / set_params between calls is not "
     "part of the histories (the property quantifies over fit / transform / fit_transform calls)",
+    "imager: the only raising call generated is fit / fit_transform on a collection that contains an empty diagram "
+    "beside a non-empty one; such a call is no step of the Coq history (the model state must survive it unchanged); "
+    "a wholly empty input is outside the generated inputs",
 ]
 COQ_DEPS = ["Corr/TransformerCorr.vo"]
 MAXPIX = 12
@@ -142,6 +156,62 @@ def _idgms_degenerate(rng, ps, skew):
     return kind, [d for d in (pts[:cut], pts[cut:]) if d]
 
 
+def _ikw(rng, ps):
+    """Non-default weight / kernel parameters, as a user writes them: an isotropic Gaussian with variance != 1
+    given as a float, an int, a 2x2 list or a 2x2 ndarray; a diagonal or a full covariance matrix (the general
+    code path, |rho| below and above the 0.925 switch of the bivariate normal CDF); the uniform kernel; persistence
+    weighting with exponent != 1; the linear ramp.  Kernel and weight are given by name or as the callables."""
+    kw = {}
+    r = rng.random()
+    if r < 0.6:
+        v = rng.choice([0.25, 4.0, 0.5, 2.0, 0.01, ps * ps, rng.uniform(0.05, 3.0)])
+        form = rng.choice(["scalar", "scalar", "matrix", "matrix", "int", "diag", "cov"])
+        if form == "scalar":
+            sg = v
+        elif form == "int":
+            sg = rng.choice([2, 4, 9])
+        elif form == "matrix":
+            sg = [[v, 0.0], [0.0, v]]
+        elif form == "diag":
+            sg = [[v, 0.0], [0.0, v * rng.choice([0.25, 2.0, 3.0])]]
+        else:
+            w = v * rng.choice([1.0, 0.5, 2.0])
+            rho = rng.choice([rng.uniform(-0.9, 0.9), 0.5, -0.5, 0.95, -0.95])
+            cv = rho * math.sqrt(v * w)
+            sg = [[v, cv], [cv, w]]
+        kw["kernel_params"] = {"sigma": sg}
+        if isinstance(sg, list) and rng.random() < 0.4:
+            kw["sigma_np"] = True
+        if rng.random() < 0.3:
+            kw["kernel"] = "gaussian"
+    elif r < 0.75:
+        kw["kernel"] = "uniform"
+        kw["kernel_params"] = {"width": ps * rng.choice([1.0, 0.5, 2.5, rng.uniform(0.3, 4.0)]),
+                               "height": ps * rng.choice([1.0, 0.5, 2.5, rng.uniform(0.3, 4.0)])}
+    if "kernel" in kw and rng.random() < 0.5:
+        kw["kernel_fn"] = True             # the callable itself instead of its name
+    r = rng.random()
+    if r < 0.3 or (not kw and r < 0.7):
+        kw["weight_params"] = {"n": rng.choice([2.0, 0.5, 1.5, 2, 3])}
+        if rng.random() < 0.3:
+            kw["weight"] = "persistence"
+    elif r < 0.45 or not kw:
+        lo = rng.choice([0.0, 0.0, 0.1])
+        st = rng.choice([0.0, 0.25, ps, rng.uniform(0.0, 1.0)])
+        kw["weight"] = "linear_ramp"
+        kw["weight_params"] = {"low": lo, "high": lo + rng.choice([1.0, 2.0, 0.5]), "start": st,
+                               "end": st + rng.choice([1.0, 0.5, 3.0, rng.uniform(0.2, 3.0)])}
+    if "weight" in kw and rng.random() < 0.5:
+        kw["weight_fn"] = True
+    # any subset of the optional arguments fixed by the user, the rest left to the function's defaults
+    for name in ("weight_params", "kernel_params"):
+        d = kw.get(name, {})
+        if len(d) >= 2 and rng.random() < 0.35:
+            for k in rng.sample(sorted(d), rng.randint(1, len(d) - 1)):
+                del d[k]
+    return kw
+
+
 def _imager_case(rng):
     ps = rng.choice([0.25, 0.5, 1.0, 0.1, 0.3, 0.7, 1.0 / 3.0, rng.uniform(0.1, 1.5), rng.uniform(0.1, 1.5)])
     def rng_for():
@@ -151,11 +221,20 @@ def _imager_case(rng):
             ext = ps * 3
         return [lo, lo + ext]
     ctor = {"br": rng_for(), "pr": rng_for(), "ps": ps}
+    if rng.random() < 0.55:
+        ctor["kw"] = _ikw(rng, ps)
     ops = []
     degenerate = rng.random() < 0.4
+    fault_at = rng.randint(1, 6) if rng.random() < 0.15 else -1
     for _ in range(rng.randint(3, 8)):
         k = rng.choice(["fit", "transform", "transform", "fit_transform", "fit_transform"])
         skew = rng.random() < 0.6
+        if len(ops) == fault_at:
+            # a fit that raises half-way (an empty diagram somewhere in the collection), caught by the caller
+            d = _idgms(rng, ps)
+            d.insert(rng.randint(0, len(d)), [])
+            ops.append({"op": rng.choice(["fit", "fit", "fit_transform"]), "dgms": d, "skew": skew, "single": False,
+                        "fault": True})
         if degenerate and ops and rng.random() < 0.6:
             # a LATER fit / fit_transform / transform on a collection with zero extent on an axis
             dk, d = _idgms_degenerate(rng, ps, skew)
@@ -180,7 +259,8 @@ def _imager_case(rng):
         dk, d = _idgms_degenerate(rng, ps, skew)
         ops.append({"op": rng.choice(["fit", "fit_transform"]), "dgms": d, "skew": skew,
                     "single": len(d) == 1 and rng.random() < 0.6, "deg": dk})
-    return {"cls": "imager-degenerate" if degenerate else "imager", "kind": "imager", "ctor": ctor, "ops": ops}
+    cls = ("imager-degenerate" if degenerate else "imager") + ("-kw" if "kw" in ctor else "")
+    return {"cls": cls, "kind": "imager", "ctor": ctor, "ops": ops}
 
 
 def _idgms_sized(rng, ps):
@@ -228,13 +308,25 @@ def _multi_case(rng):
             e = _imager_case(rng)
             ests.append({"ctor": e["ctor"]})
         ps = max(e["ctor"]["ps"] for e in ests)
+        share = False
+        if rng.random() < 0.5:
+            # one weight_params / kernel_params dict (the SAME objects) handed to every estimator, as in a loop
+            # over pixel sizes with the remaining parameters held in one dict
+            kw = _ikw(rng, ps)
+            for e in ests:
+                e["ctor"]["kw"] = kw
+            share = True
         folds = [_idgms(rng, ps) for _ in range(2)]
         for d in folds:
             for i in rng.sample(range(n_est), n_est):
                 ops.append({"op": rng.choice(["fit", "fit_transform"]), "dgms": d, "skew": True, "single": False, "est": i})
             for i in range(n_est):
                 ops.append({"op": "transform", "dgms": rng.choice(folds), "skew": True, "single": False, "est": i})
-    return {"cls": "multi-" + what, "kind": "multi", "what": what, "ests": ests, "ops": ops}
+    c = {"cls": "multi-" + what, "kind": "multi", "what": what, "ests": ests, "ops": ops}
+    if what == "imager" and share:
+        c["cls"] += "-sharedkw"
+        c["share_kw"] = True
+    return c
 
 
 def _one(rng, i):
@@ -352,21 +444,48 @@ def _isnap(p):
     return s
 
 
-def _i_runner(c):
-    """One live PersistenceImager: returns (initial record, step(op) -> record, state() -> snapshot)."""
+def _ikwargs(ct):
+    """The user's weight / kernel arguments as NEW objects (every estimator built from them owns its dicts)."""
+    import copy
+    import numpy as np
+    from persim import images_kernels, images_weights
+    kw = ct.get("kw") or {}
+    out = {}
+    if "kernel" in kw:
+        out["kernel"] = getattr(images_kernels, kw["kernel"]) if kw.get("kernel_fn") else kw["kernel"]
+    if "weight" in kw:
+        out["weight"] = getattr(images_weights, kw["weight"]) if kw.get("weight_fn") else kw["weight"]
+    if "kernel_params" in kw:
+        kp = copy.deepcopy(kw["kernel_params"])
+        if kw.get("sigma_np") and isinstance(kp.get("sigma"), list):
+            kp["sigma"] = np.array(kp["sigma"], dtype=float)
+        out["kernel_params"] = kp
+    if "weight_params" in kw:
+        out["weight_params"] = copy.deepcopy(kw["weight_params"])
+    return out
+
+
+def _i_runner(c, kwargs=None):
+    """One live PersistenceImager: returns (initial record, step(op) -> record, state() -> snapshot).
+    `kwargs`: weight / kernel argument objects shared with other live estimators (default: own objects)."""
     import copy
     import numpy as np
     from persim import PersistenceImager
     ct = c["ctor"]
-    p = PersistenceImager(birth_range=tuple(ct["br"]), pers_range=tuple(ct["pr"]), pixel_size=ct["ps"])
+    p = PersistenceImager(birth_range=tuple(ct["br"]), pers_range=tuple(ct["pr"]), pixel_size=ct["ps"],
+                          **(_ikwargs(ct) if kwargs is None else kwargs))
+    st = {"last_fit": None}             # the most recent fit / fit_transform that did not raise
 
-    def step(o):
+    def build(o):
         arrs = [np.array(d, dtype=float).reshape(-1, 2) for d in o["dgms"]]
         if "same" in o:                 # positions with the same group id hold the same array OBJECT
             first = {}
             arrs = [first.setdefault(g, a) for g, a in zip(o["same"], arrs)]
+        return arrs, (arrs[0] if o["single"] else arrs)
+
+    def step(o):
+        arrs, arg = build(o)
         before = [a.copy() for a in arrs]
-        arg = arrs[0] if o["single"] else arrs
         skew = o["skew"]
         rec = {}
 
@@ -380,6 +499,14 @@ def _i_runner(c):
             r = _try(lambda: imgs(p.transform(arg, skew=skew, n_jobs=nj)))
             rec["again"] = _try(lambda: imgs(p.transform(arg, skew=skew)))        # serial branch
             rec["each"] = _try(lambda: [_arr(p.transform(a, skew=skew)) for a in arrs])
+
+            def ref():                  # a NEW estimator with the user's arguments, fitted on the last fitted data only
+                f = PersistenceImager(birth_range=tuple(ct["br"]), pers_range=tuple(ct["pr"]), pixel_size=ct["ps"],
+                                      **_ikwargs(ct))
+                if st["last_fit"] is not None:
+                    f.fit(build(st["last_fit"])[1], skew=st["last_fit"]["skew"])
+                return imgs(f.transform(build(o)[1], skew=skew))
+            rec["ref"] = _try(ref)
         else:
             q = copy.deepcopy(p)
             r = _try(lambda: imgs(p.fit_transform(arg, skew=skew)))
@@ -390,13 +517,15 @@ def _i_runner(c):
             rec["ref"] = _try(ref)
             rec["each"] = _try(lambda: [_arr(p.transform(a, skew=skew)) for a in arrs])
         if o["op"] != "transform":
-            fresh = PersistenceImager(pixel_size=ct["ps"])       # default ranges: a different past
+            fresh = PersistenceImager(pixel_size=ct["ps"], **_ikwargs(ct))       # default ranges: a different past
             if o["op"] == "fit":
                 rec["fresh"] = _try(lambda: fresh.fit(arg, skew=skew) and None)
             else:
                 rec["fresh"] = _try(lambda: imgs(fresh.fit_transform(arg, skew=skew)))
             rec["fresh_snap"] = _isnap(fresh)
         rec.update(r)
+        if o["op"] != "transform" and "error" not in r:
+            st["last_fit"] = o
         rec["inputs_unchanged"] = all(np.array_equal(a, b) for a, b in zip(arrs, before))
         rec["snap"] = _isnap(p)
         return rec
@@ -420,7 +549,8 @@ def _run_multi(c):
         runners = [_l_runner(sc) for sc in subs]
         per = [{"calls": []} for _ in subs]
     else:
-        trip = [_i_runner(sc) for sc in subs]
+        shared = _ikwargs(subs[0]["ctor"]) if c.get("share_kw") else None
+        trip = [_i_runner(sc, shared) for sc in subs]
         runners = [(t[1], t[2]) for t in trip]
         per = [{"calls": [t[0]]} for t in trip]
     digest = [core.sha(st()) for _, st in runners]
@@ -525,14 +655,27 @@ def _pred_imager(c, o):
     for k, op in enumerate(c["ops"]):
         rec, prev = calls[k + 1], calls[k]
         where = "call %d (%s)" % (k, op["op"])
-        if "error" in rec:
-            return False, "error: %s: unexpected %s %s" % (where, rec["error"], rec.get("msg"))
         if not rec["inputs_unchanged"]:
             return False, "inputs: %s: the caller's diagrams were modified" % where
+        if op.get("fault") and "error" in rec:
+            # a fit on a collection with an empty diagram may raise; then a fresh estimator raises as well and
+            # the estimator still is what the most recent SUCCESSFUL fit made it
+            if "error" not in rec["fresh"]:
+                return False, "error: %s: raised %s, a fresh imager accepts the same collection" % (where, rec["error"])
+            if not _eq_nan(rec["snap"], prev["snap"]):
+                return False, ("atomic: %s: the call raised %s and left the fitted state changed: %s, before %s"
+                               % (where, rec["error"], _brief(rec["snap"]), _brief(prev["snap"])))
+            continue
+        if "error" in rec:
+            return False, "error: %s: unexpected %s %s" % (where, rec["error"], rec.get("msg"))
         n = 1 if op["single"] else len(op["dgms"])
         if op["op"] == "transform":
             if not _eq_nan(rec["snap"], prev["snap"]):
-                return False, "pure: %s: transform changed the fitted state" % where
+                return False, "pure: %s: transform changed the fitted state (fields %s)" % (
+                    where, _differs(rec["snap"], prev["snap"]))
+            if not _same(rec, rec["ref"]):
+                return False, ("forgets: %s: transform differs from a new imager (same arguments) fitted on the last "
+                               "fitted data only" % where)
             if not _same(rec, rec["again"]):
                 return False, ("repeat: %s: transform%s differs from a second (serial) transform"
                                % (where, "" if op.get("n_jobs") is None else " with n_jobs=%s" % op["n_jobs"]))
@@ -543,8 +686,9 @@ def _pred_imager(c, o):
                     return False, "elementwise: %s: image %d differs from transforming diagram %d alone" % (where, i, i)
         else:
             if not _eq_nan(rec["snap"], rec["fresh_snap"]):
-                return False, ("forgets: %s: fitted attributes differ from a fresh imager (same pixel size) fitted on "
-                               "the same data: %s vs %s" % (where, _brief(rec["snap"]), _brief(rec["fresh_snap"])))
+                return False, ("forgets: %s: fitted attributes (fields %s) differ from a fresh imager (same pixel size) fitted on "
+                               "the same data: %s vs %s" % (where, _differs(rec["snap"], rec["fresh_snap"]),
+                                                            _brief(rec["snap"]), _brief(rec["fresh_snap"])))
             if op["op"] == "fit_transform":
                 if not _same(rec, rec["ref"]):
                     return False, "fit_transform: %s: fit_transform(X) differs from fit(X); transform(X) on a copy" % where
@@ -564,6 +708,11 @@ def _pred_imager(c, o):
 
 def _brief(s):
     return {k: s[k] for k in ("br", "pr", "res")}
+
+
+def _differs(a, b):
+    """Names of the snapshot fields in which two snapshots differ (bp / pp: the pixel boundaries)."""
+    return ",".join(k for k in sorted(set(a) | set(b)) if not _eq_nan(a.get(k), b.get(k)))
 
 
 def predicate(c, o):
@@ -597,7 +746,7 @@ def nontrivial(c, o):
         fits = [core.sha(op["X"]) for op in c["ops"]
                 if op["op"] in ("fit", "fit_transform") and _lfit_expect(c, op["X"])[0] == "ok"]
     else:
-        fits = [core.sha(op["dgms"]) for op in c["ops"] if op["op"] != "transform"]
+        fits = [core.sha(op["dgms"]) for op in c["ops"] if op["op"] != "transform" and not op.get("fault")]
     return len(set(fits)) >= 2
 
 
@@ -638,10 +787,13 @@ def _iterm(c, o):
     ct = c["ctor"]
     ctor = {"fit": "IFit", "transform": "ITransform", "fit_transform": "IFitTransform"}
     ops = []
-    for op in c["ops"]:
+    snaps = [_coq_snap(dict(o["calls"][0]["snap"], land=None))]
+    for op, rec in zip(c["ops"], o["calls"][1:]):
+        if op.get("fault") and "error" in rec:
+            continue                    # a fit that raised is no step of the model: the next snapshot must not show it
         ds = [_coq_dgm(d) for d in op["dgms"]]
         ops.append("@%s FNum (%s, %s) %s" % (ctor[op["op"]], ds[0], core.coq_list(ds[1:]), "true" if op["skew"] else "false"))
-    snaps = [_coq_snap(dict(rec["snap"], land=None)) for rec in o["calls"]]
+        snaps.append(_coq_snap(dict(rec["snap"], land=None)))
     return "check_ihistory %s %s %s %s %s %s %s" % (
         fl(ct["br"][0]), fl(ct["br"][1]), fl(ct["pr"][0]), fl(ct["pr"][1]), fl(ct["ps"]),
         core.coq_list(ops, sep=";\n  "), core.coq_list(snaps, sep=";\n  "))
@@ -681,6 +833,10 @@ def coq_judge(cases, outs, results):
         pairs = list(zip(_sub_cases(c), o["per"])) if c["kind"] == "multi" else [(c, o)]
         if any(sc["kind"] == "imager" and any("snap" not in r for r in so["calls"]) for sc, so in pairs):
             continue
+        if any(sc["kind"] == "imager" and any(op.get("fault") and "error" not in r
+                                              for op, r in zip(sc["ops"], so["calls"][1:])) for sc, so in pairs):
+            verdicts[i] = "disagree:imager model: fit on a collection with an empty diagram raises, the implementation did not"
+            continue
         for sc, so in pairs:
             owner.append(i)
             kinds.append(sc["kind"])
@@ -706,9 +862,16 @@ def shrink_candidates(c):
     for k in range(n - 1, -1, -1):
         d = dict(c); d["ops"] = c["ops"][:k] + c["ops"][k + 1:]
         yield d
+    if c["kind"] == "imager" and "kw" in c["ctor"]:
+        d = dict(c); d["ctor"] = {k: v for k, v in c["ctor"].items() if k != "kw"}
+        yield d
+        for part in (("kernel", "kernel_fn", "kernel_params", "sigma_np"), ("weight", "weight_fn", "weight_params")):
+            if any(k in c["ctor"]["kw"] for k in part):
+                d = dict(c); d["ctor"] = dict(c["ctor"], kw={k: v for k, v in c["ctor"]["kw"].items() if k not in part})
+                yield d
     key = "X" if c.get("what", c["kind"]) == "landscaper" else "dgms"
     for k, o in enumerate(c["ops"]):
-        if "same" in o:
+        if "same" in o or o.get("fault"):
             continue                    # aliased positions must keep equal values
         for i, dg in enumerate(o[key]):
             if len(dg) > 1:
